@@ -21,9 +21,10 @@ use mithril_common::entities::{Certificate, ProtocolMessagePartKey};
 
 use crate::oracle::{NodeFacts, node_facts};
 use crate::pool::{Origin, World, rehash};
-use crate::seam_a::{Found, KEY_FORWARD, block_on, chain_defects, found, logger};
+use crate::seam_a::{ChainDefect, Found, block_on, chain_defects, found, logger};
 
 pub const KEY_CACHE: &str = "C03/client-cache-filled-before-parent-validated";
+pub const KEY_CACHE_HIT: &str = "C03/client-cache-hit-skips-check-of-served-certificate";
 
 pub struct MemberB {
     pub cert: Certificate,
@@ -36,7 +37,7 @@ pub struct PoolB {
     pub members: Vec<MemberB>,
     pub messages: Arc<Vec<MithrilCertificate>>,
     pub facts: Vec<NodeFacts>,
-    pub chain_defect: Vec<Option<String>>,
+    pub chain_defect: Vec<Option<ChainDefect>>,
     /// hash field -> default ("honest") answer
     pub default_answer: Arc<BTreeMap<String, usize>>,
     /// all distinct hash fields (cache keys that can ever exist)
@@ -316,19 +317,39 @@ pub fn judge(pool: &PoolB, res: &CallResult, call: &Call, cache_was_empty: bool)
     let label = pool.label(call.start);
     if res.ok {
         let d = pool.chain_defect[call.start].as_ref()?;
-        let cache_hits: Vec<&str> = res.events.iter().filter(|e| e.0).map(|e| &e.1[..8]).collect();
-        let key = if d.starts_with("forward-epoch") {
-            KEY_FORWARD.to_string()
-        } else if !cache_hits.is_empty() {
-            KEY_CACHE.to_string()
+        let from_cache: Vec<&str> = res.events.iter().filter(|e| e.0).map(|e| e.1.as_str()).collect();
+        // the defective element was never looked at in this call because the certificate above it
+        // (or, for a link, the certificate carrying it) was taken from the verifier cache
+        let skipped_by_cache = if d.is_node {
+            d.path.len() >= 2 && from_cache.contains(&pool.members[d.path[d.path.len() - 2]].cert.hash.as_str())
         } else {
-            format!("C03/client-accepted-invalid-chain:{}", d.split(' ').next().unwrap_or(""))
+            from_cache.contains(&pool.members[d.at].cert.hash.as_str())
         };
+        // the link of a certificate validated in this call was judged against a served previous
+        // certificate whose own check was then skipped because its hash field is a cache key
+        let validated_here = res.events.iter().any(|e| !e.0 && e.1 == pool.members[d.at].cert.hash);
+        let parent_hash = pool.members[d.at].cert.previous_hash.as_str();
+        let served_content_is_not_the_hashed_one = res.requests.iter().any(|(h, a)| {
+            h == parent_hash && matches!(a, Ans::Member(i) if !pool.facts[*i].hash_ok)
+        });
+        let judged_against_unchecked_answer =
+            !d.is_node && validated_here && from_cache.contains(&parent_hash) && served_content_is_not_the_hashed_one;
+        let key = if skipped_by_cache {
+            KEY_CACHE.to_string()
+        } else if judged_against_unchecked_answer {
+            KEY_CACHE_HIT.to_string()
+        } else {
+            d.key.clone()
+        };
+        let short = |h: &str| h.get(..8).unwrap_or(h).to_string();
         return Some((
             key,
             format!(
-                "verify_chain({label}) = Ok, but the hash-linked chain of that certificate is invalid: {d}. Certificates taken from the verifier cache in this call: {cache_hits:?}; validated: {:?}",
-                res.events.iter().filter(|e| !e.0).map(|e| &e.1[..8]).collect::<Vec<_>>()
+                "verify_chain({label}) = Ok, but the hash-linked chain of that certificate is invalid: {}. In this call the real code validated {:?} and took {:?} from the verifier cache; hash-linked chain: {:?}",
+                d.text,
+                res.events.iter().filter(|e| !e.0).map(|e| short(&e.1)).collect::<Vec<_>>(),
+                from_cache.iter().map(|h| short(h)).collect::<Vec<_>>(),
+                d.path.iter().map(|i| pool.label(*i)).collect::<Vec<_>>(),
             ),
         ));
     }
